@@ -31,7 +31,7 @@ class Coll(Term):
 
 class Event:
     __slots__ = ("kind", "op", "target", "opts", "line", "file", "failed",
-                 "guards", "depth", "via", "args", "text", "in_comp", "env", "ncond", "whole")
+                 "guards", "depth", "via", "args", "text", "in_comp", "env", "ncond", "whole", "held")
 
     def __init__(self, kind, op=None, target=None, opts=None, line=0, file="",
                  guards=(), depth=0, via=(), args=(), text="", in_comp=False):
@@ -51,6 +51,7 @@ class Event:
         self.env = None
         self.ncond = 0
         self.whole = False
+        self.held = ()
 
     def copy(self):
         e = Event(self.kind, self.op, self.target, self.opts, self.line,
@@ -60,6 +61,7 @@ class Event:
         e.env = self.env
         e.ncond = self.ncond
         e.whole = self.whole
+        e.held = self.held
         return e
 
     def key(self):
@@ -202,6 +204,7 @@ class Frame:
         self.via = via
         self.fname = fname
         self.guards: List[str] = []
+        self.held: List[str] = []      # keys of the context managers of the enclosing ``with`` blocks
         self.in_comp = 0
 
     # ------------------------------------------------------------ utilities
@@ -211,6 +214,7 @@ class Frame:
         e.env = dict(p.env) if self.guards else None
         e.ncond = len(p.conds)
         e.whole = self.ctx.whole > 0
+        e.held = tuple(self.held)
         p.events.append(e)
         return e
 
@@ -253,7 +257,11 @@ class Frame:
                 for it in flat:
                     if it not in uniq:
                         uniq.append(it)
-                q.ret = Coll(uniq[0] if len(uniq) == 1 else (Sym("oneof", tuple(uniq)) if uniq else Opaque("empty")))
+                if uniq:
+                    q.ret = Coll(uniq[0] if len(uniq) == 1 else Sym("oneof", tuple(uniq)))
+                    q.ret.nonempty = True       # something was yielded on this path
+                else:
+                    q.ret = Seq([])             # nothing was yielded on this path: an empty iterable
             out.append(q)
         return dedupe(out)
 
@@ -321,17 +329,26 @@ class Frame:
             return out
         if isinstance(st, ast.Try):
             return self.do_try(st, p)
-        if isinstance(st, ast.With):
+        if isinstance(st, (ast.With, ast.AsyncWith)):
             cur = [p]
+            keys = []
             for item in st.items:
                 nxt = []
+                k_ = None
                 for q in cur:
                     for q2, t in self.expr(item.context_expr, q):
                         if item.optional_vars is not None and q2.status == "live":
                             self.assign(item.optional_vars, t, q2, st)
+                        if k_ is None and t is not None:
+                            k_ = t.key()
                         nxt.append(q2)
                 cur = nxt
-            return self.block(st.body, cur)
+                keys.append(k_ or "expr:" + ast.unparse(item.context_expr)[:60])
+            self.held.extend(keys)
+            try:
+                return self.block(st.body, cur)
+            finally:
+                del self.held[len(self.held) - len(keys):]
         if isinstance(st, ast.Break):
             p.status = "break"
             return [p]
@@ -403,9 +420,33 @@ class Frame:
             base = tg.value
             if isinstance(base, ast.Name) and base.id in ("self", "cls") and p.env.get(base.id) is self.selfterm:
                 p.env[f"self.{tg.attr}"] = t
-            self.ev(p, "store", text=ast.unparse(tg), target=t, line=st.lineno)
+            bt = p.env.get(base.id) if isinstance(base, ast.Name) else None
+            self.ev(p, "store", text=ast.unparse(tg), target=t, line=st.lineno, op=self.fname,
+                    args=(bt if bt is not None else Opaque("obj:" + ast.unparse(base)[:40]), Const(tg.attr)))
         elif isinstance(tg, ast.Subscript):
-            self.ev(p, "store", text=ast.unparse(tg), target=t, line=st.lineno)
+            cont = self.peek(tg.value, p) if isinstance(tg.value, (ast.Name, ast.Attribute)) else None
+            if isinstance(tg.value, ast.Name) and (isinstance(cont, Sym) and cont.head in ("dict{}", "call:dict") and not cont.args
+                                                   or isinstance(cont, Coll) and getattr(cont, "kind", "") == "dict" and getattr(cont, "local", False)):
+                # item store into a dictionary built up locally: it now holds key -> value
+                r_ = self.expr(tg.slice, p.fork()) if not isinstance(tg.slice, ast.Slice) else []
+                kt = r_[0][1] if len(r_) == 1 else None
+                if isinstance(cont, Coll) and cont.elem.key() != t.key():
+                    nc = Coll(Sym("oneof", (cont.elem, t)), cont.keyterm)
+                else:
+                    nc = Coll(t, kt)
+                nc.kind = "dict"
+                nc.local = True
+                p.env[tg.value.id] = nc
+            if cont is None and isinstance(tg.value, (ast.Name, ast.Attribute)):
+                r_ = self.expr(tg.value, p.fork())
+                cont = r_[0][1] if len(r_) == 1 else None
+            idx = self.peek(tg.slice, p) if isinstance(tg.slice, (ast.Name, ast.Attribute, ast.Constant)) else None
+            if idx is None and not isinstance(tg.slice, ast.Slice):
+                r_ = self.expr(tg.slice, p.fork())
+                idx = r_[0][1] if len(r_) == 1 else None
+            self.ev(p, "store", text=ast.unparse(tg), target=t, line=st.lineno, op=self.fname,
+                    args=(cont if cont is not None else Opaque("obj:" + ast.unparse(tg.value)[:40]),
+                          Sym("index", (idx,)) if idx is not None else Opaque("index")))
         elif isinstance(tg, ast.Starred):
             self.assign(tg.value, Opaque("star"), p, st)
 
@@ -497,7 +538,7 @@ class Frame:
             res = None
             if isinstance(a, Const) and isinstance(b, Const):
                 res = a.v == b.v and type(a.v) is type(b.v)
-            elif (isinstance(a, (New, Fn)) and isinstance(b, Const)) or (isinstance(b, (New, Fn)) and isinstance(a, Const)):
+            elif (self._is_object(a) and isinstance(b, Const)) or (self._is_object(b) and isinstance(a, Const)):
                 res = False
             if res is None:
                 return None
@@ -509,6 +550,17 @@ class Frame:
             if isinstance(t, New):
                 return True
         return None
+
+    @staticmethod
+    def _is_object(t) -> bool:
+        """A term that certainly denotes an object (never None / a constant): a constructed
+        node, a function, ``self``, or the result of calling a class."""
+        if isinstance(t, (New, Fn)):
+            return True
+        if t is None:
+            return False
+        k = t.key()
+        return k == "self" or k == SELF.key() or k.startswith("new:")
 
     def peek(self, e: ast.expr, p: Path) -> Optional[Term]:
         """Term of a side-effect-free name/attribute expression, else None."""
@@ -554,6 +606,58 @@ class Frame:
         return k, pol
 
     @staticmethod
+    def split_args(k: str) -> List[str]:
+        """Top-level comma-separated arguments of ``head(a,b,…)``."""
+        i = k.find("(")
+        if i < 0 or not k.endswith(")"):
+            return []
+        body, out, depth, cur, quote = k[i + 1:-1], [], 0, [], None
+        for ch in body:
+            if quote:
+                cur.append(ch)
+                if ch == quote:
+                    quote = None
+                continue
+            if ch in "'\"":
+                quote = ch
+                cur.append(ch)
+            elif ch in "([{<" and ch != "<":
+                depth += 1
+                cur.append(ch)
+            elif ch in ")]}":
+                depth -= 1
+                cur.append(ch)
+            elif ch == "," and depth == 0:
+                out.append("".join(cur))
+                cur = []
+            else:
+                cur.append(ch)
+        out.append("".join(cur))
+        return out
+
+    @staticmethod
+    def atoms(conds) -> Dict[str, bool]:
+        """Atomic pure tests whose truth value is established by the path's
+        conditions: a true conjunction makes every conjunct true, a false
+        disjunction makes every disjunct false; ``not`` etc. fold into the polarity."""
+        out: Dict[str, bool] = {}
+
+        def add(k, pol):
+            k, pol = Frame.norm_cond(k, pol)
+            if k.startswith("and(") and pol:
+                for a in Frame.split_args(k):
+                    add(a, True)
+            elif k.startswith("or(") and not pol:
+                for a in Frame.split_args(k):
+                    add(a, False)
+            else:
+                out.setdefault(k, pol)
+        for c in conds:
+            if c[2]:
+                add(c[2], c[1])
+        return out
+
+    @staticmethod
     def implied(q: Path, tt: Term) -> Optional[bool]:
         """Polarity of a pure test already decided earlier on this path."""
         k, flip = Frame.norm_cond(tt.key(), True)
@@ -562,12 +666,9 @@ class Frame:
             k2 = k2.replace(pure, "pure(")
         if "call" in k2 or "Val(" in k or "Opaque" in k or "elem(" in k:
             return None
-        for c in q.conds:
-            if not c[2]:
-                continue
-            ck, cpol = Frame.norm_cond(c[2], c[1])
-            if ck == k:
-                return cpol if flip else (not cpol)
+        at = Frame.atoms(q.conds)
+        if k in at:
+            return at[k] if flip else (not at[k])
         return None
 
     def do_if(self, st: ast.If, p: Path) -> List[Path]:
@@ -609,17 +710,19 @@ class Frame:
                 out.append(q)
                 continue
             elems = iter_elems(it)
-            is_whole = len(elems) == 1 and not early and not isinstance(it, Seq)
+            if isinstance(it, Seq) and not it.items:
+                elems = []                      # a known-empty iterable: the body never runs
+            is_whole = len(elems) == 1 and not early and not isinstance(it, Seq) and not getattr(it, "partial", False)
             if is_whole:
                 self.ctx.whole += 1
             try:
-                self._for_body(st, q, elems, out)
+                self._for_body(st, q, elems, out, nonempty=bool(getattr(it, "nonempty", False)))
             finally:
                 if is_whole:
                     self.ctx.whole -= 1
         return dedupe(out)
 
-    def _for_body(self, st, q: Path, elems: List[Term], out: List[Path]) -> None:
+    def _for_body(self, st, q: Path, elems: List[Term], out: List[Path], nonempty: bool = False) -> None:
         pending = [q]
         natural: List[Path] = []  # paths on which the iterable is exhausted
         n_iter = self.ctx.unroll if len(elems) == 1 else len(elems)
@@ -627,7 +730,7 @@ class Frame:
             el = elems[0] if len(elems) == 1 else elems[i]
             nxt = []
             for r in pending:
-                if len(elems) == 1:
+                if len(elems) == 1 and not (i == 0 and nonempty):
                     natural.append(r.fork())  # the loop ends before this iteration
                 body_in = r.fork()
                 self.assign(st.target, el, body_in, st)
@@ -891,6 +994,7 @@ class Frame:
                 # are the same children as seen through ``self``
                 fr = Frame(self.ctx, root.module, root, t, None, self.depth, self.via, self.fname)
                 fr.guards = self.guards
+                fr.held = self.held
                 env_name = "<root>"
                 p.env[env_name] = t
                 return fr.self_attr(attr, p, node)
@@ -938,6 +1042,19 @@ class Frame:
                 return out
         for q, (t, idx) in [(q, ts) for q, ts in self.seq([e.value, e.slice], p)]:
             if isinstance(e.slice, ast.Slice) and isinstance(t, (Child, Coll, Seq)):
+                full = e.slice.lower is None and e.slice.upper is None and e.slice.step is None
+                if not full and isinstance(t, Coll):
+                    t2 = Coll(t.elem, t.keyterm)
+                    t2.kind = getattr(t, "kind", "other")
+                    t2.partial = True      # a proper slice: iterating it does not visit every element
+                    t = t2
+                elif not full and isinstance(t, Child):
+                    t2 = Child(t.path)
+                    for a_ in ("kind", "index"):
+                        if hasattr(t, a_):
+                            setattr(t2, a_, getattr(t, a_))
+                    t2.partial = True
+                    t = t2
                 out.append((q, t))
             elif isinstance(t, Child):
                 if isinstance(e.ctx, ast.Load) and getattr(t, "kind", "other") == "other":
@@ -1053,7 +1170,37 @@ class Frame:
         cur = [(p, [])]
         vals = [v.value for v in e.values if isinstance(v, ast.FormattedValue)]
         res = self.seq(vals, p)
-        return [(q, Sym("fstr", text=ast.unparse(e)[:60])) for q, _ in res]
+        out = []
+        for q, ts in res:
+            # an f-string whose every placeholder is a known string constant is that constant
+            parts, k = [], 0
+            for v in e.values:
+                if isinstance(v, ast.Constant):
+                    parts.append(str(v.value))
+                    continue
+                t = ts[k] if isinstance(ts, (list, tuple)) and k < len(ts) else None
+                k += 1
+                if v.conversion == -1 and v.format_spec is None and isinstance(t, Const) and isinstance(t.v, str):
+                    parts.append(t.v)
+                else:
+                    parts = None
+                    break
+            if parts is not None and k:
+                out.append((q, Const("".join(parts))))
+                continue
+            # structured: the literal pieces and the formatted terms, in order
+            items, k = [], 0
+            for v in e.values:
+                if isinstance(v, ast.Constant):
+                    items.append(Const(str(v.value)))
+                    continue
+                t = ts[k] if isinstance(ts, (list, tuple)) and k < len(ts) else Opaque("fmt")
+                k += 1
+                if v.conversion != -1 or v.format_spec is not None:
+                    t = Sym("fmt" + ("!" + chr(v.conversion) if v.conversion != -1 else "") + (":spec" if v.format_spec is not None else ""), (t,))
+                items.append(t)
+            out.append((q, Sym("fstr", tuple(items)) if items else Const("")))
+        return out
 
     def e_FormattedValue(self, e, p):
         return [(q, Sym("fmt", (t,))) for q, t in self.expr(e.value, p)]
@@ -1141,7 +1288,7 @@ class Frame:
                         out_.append((q2, acc))
                         continue
                     cur = [(q2, acc)]
-                    comp_whole = not isinstance(it, Seq)
+                    comp_whole = not isinstance(it, Seq) and not getattr(it, "partial", False)
                     if comp_whole:
                         self.ctx.whole += 1
                     try:
@@ -1197,7 +1344,7 @@ class Frame:
             self.in_comp -= 1
 
     def _gen_elems(self, e, g, idx, it, cur, gen):
-        for el in iter_elems(it):
+        for el in ([] if isinstance(it, Seq) and not it.items else iter_elems(it)):
             nxt = []
             for q3, a3 in cur:
                 if q3.status != "live":
@@ -1206,7 +1353,14 @@ class Frame:
                 self.assign(g.target, el, q3, e)
                 conds = [q3]
                 for c in g.ifs:
-                    conds = [r for q4 in conds for r, _ in self.expr(c, q4)]
+                    nc = []
+                    for q4 in conds:
+                        for r, ct in self.expr(c, q4):
+                            if r.status == "live":
+                                # the element is kept exactly when this test holds
+                                self.ev(r, "filter", text=ast.unparse(c)[:80], target=ct, args=(el,), line=getattr(c, "lineno", 0))
+                            nc.append(r)
+                    conds = nc
                 for q4 in conds:
                     nxt.extend(gen(idx + 1, q4, a3))
             cur = nxt
@@ -1232,7 +1386,10 @@ class Frame:
         for q, ts in self.seq(exprs, p):
             pos: List[Term] = []
             for a, t in zip(e.args, ts):
-                pos.append(Sym("star", (t,)) if isinstance(a, ast.Starred) else t)
+                if isinstance(a, ast.Starred) and isinstance(t, Seq) and t.items and not any(isinstance(i, Sym) and i.head == "star" for i in t.items):
+                    pos.extend(t.items)     # *args of a known tuple: the arguments themselves
+                else:
+                    pos.append(Sym("star", (t,)) if isinstance(a, ast.Starred) else t)
             kw: Dict[str, Term] = {}
             for k, t in zip(e.keywords, ts[len(e.args):]):
                 if k.arg is None:
@@ -1333,6 +1490,18 @@ class Frame:
         if callee.head.startswith("attr:") and callee.args:
             mname = callee.head[5:]
             recv = callee.args[0]
+            rc = getattr(self.ctx, "sym_self_cls", None)
+            if rc is not None and isinstance(recv, Sym) and recv.head == "self" and not recv.args and mname not in self.ctx.no_inline:
+                # a method of a plain (non-node) class analysed with a symbolic self: inline its private methods
+                r = rc.find_method(mname)
+                if r is not None and not any(ast.unparse(d) in ("property", "classmethod") for d in r[1].decorator_list):
+                    owner, fn = r
+                    static = any(ast.unparse(d) == "staticmethod" for d in fn.decorator_list)
+                    bound = self.bind_params(fn, not static, pos, kw, owner.module)
+                    first = [a.arg for a in fn.args.posonlyargs + fn.args.args][:1]
+                    if first and not static:
+                        bound[first[0]] = recv
+                    return self.inline(owner.module, None, fn, None, None, bound, p, node)
             kws = tuple(Sym("kw:" + k, (v,)) for k, v in sorted(kw.items()))
             self.ev(p, "call", text=mname, target=recv, args=tuple(pos) + kws, line=line)
             return [(p, Sym("call:" + mname, (recv,) + tuple(pos) + kws))]
@@ -1351,6 +1520,16 @@ class Frame:
                 c.kind = "node"
                 return [(p, c)]
             return [(p, Sym("getattr", tuple(pos)))]
+        if short == "setattr" and len(pos) == 3 and not kw:
+            obj, nm, val = pos
+            src = ast.unparse(node.args[0]) if getattr(node, "args", None) else "?"
+            if isinstance(nm, Const) and isinstance(nm.v, str):
+                if obj is self.selfterm:
+                    p.env[f"self.{nm.v}"] = val
+                self.ev(p, "store", text=f"{src}.{nm.v}", target=val, line=line, op=self.fname, args=(obj, nm))
+            else:
+                self.ev(p, "store", text=f"setattr({src}, …)", target=val, line=line, op=self.fname, args=(obj, nm))
+            return [(p, Const(None))]
         if short in ("tuple", "list", "set", "frozenset", "iter") and len(pos) == 1 and not kw:
             t = pos[0]
             if isinstance(t, (Coll, Child, Seq)):
@@ -1567,6 +1746,7 @@ class Frame:
             if names and "staticmethod" not in decos:
                 env[names[0]] = selfterm
         fr.guards = list(self.guards)
+        fr.held = list(self.held)
         if isinstance(fn, ast.Lambda):
             callee = Path(env, p.events, p.conds)
             res = fr.expr(fn.body, callee)
@@ -1893,7 +2073,41 @@ def analyse_method(ctx: Ctx, cls: ClassInfo, name: str) -> List[Path]:
         ctx.unfolding.pop()
 
 
-def analyse_function(ctx: Ctx, module: Module, fn: ast.FunctionDef, env: Optional[Dict[str, Term]] = None) -> List[Path]:
+def analyse_method_result_call(ctx: Ctx, cls: ClassInfo, name: str, args: List[Term]) -> List[Path]:
+    """Paths of ``cls.name(...)`` continued by calling the returned function value
+    with ``args`` (e.g. Pipeline.evaluate(options)(x)).  A path whose result is not
+    a known function keeps status "ret" with a ``valuecall`` term."""
+    r = cls.find_method(name)
+    if r is None:
+        raise AnalysisError(f"{cls.qualname} has no method {name}")
+    owner, fn = r
+    fr = Frame(ctx, owner.module, cls, SELF, None, 0, (), f"{cls.name}.{name}")
+    out: List[Path] = []
+    fake = ast.Call(func=ast.Name(id="<result>", ctx=ast.Load()), args=[], keywords=[])
+    fake.lineno = fn.lineno
+    fake.col_offset = 0
+    for p in analyse_method(ctx, cls, name):
+        if p.status != "ret" or p.ret is None:
+            out.append(p)
+            continue
+        q = p.fork()
+        q.status = "live"
+        callee = q.ret
+        q.ret = None
+        for q2, t in fr.call_term(callee, list(args), {}, q, fake):
+            if q2.status == "live":
+                q2.status = "ret"
+                q2.ret = t
+            out.append(q2)
+    return out
+
+
+def analyse_function(ctx: Ctx, module: Module, fn: ast.FunctionDef, env: Optional[Dict[str, Term]] = None,
+                     cls: Optional[ClassInfo] = None) -> List[Path]:
+    """Paths of a plain function.  With ``cls`` the function is a method of that (non-node)
+    class: ``self`` stays symbolic and calls of the class's own methods through it are inlined."""
+    if cls is not None:
+        ctx.sym_self_cls = cls
     fr = Frame(ctx, module, None, None, None, 0, (), fn.name)
     a = fn.args
     names = [x.arg for x in a.posonlyargs + a.args] + [x.arg for x in a.kwonlyargs]
